@@ -105,6 +105,11 @@ def gen_value(t, rnd, name=""):
         if kind == "arraylike" and et == "Real" and rnd.random() < 0.2 and all(float(v).is_integer() for v in arr):
             return arr.astype(np.int64)
         return arr
+    if tag == "Seq2":
+        rows, cols = rnd.randint(1, 6), rnd.choice([2, 2, 2, 3, 1])
+        m = np.array([[gen_real(rnd) for _ in range(cols)] for _ in range(rows)])
+        m[:, 0] = np.cumsum(np.abs(m[:, 0]) + 0.5)
+        return m
     if tag == "Tuple":
         return tuple(gen_value(x, rnd, name) for x in t.args)
     if tag == "Fn":
@@ -114,6 +119,11 @@ def gen_value(t, rnd, name=""):
         from contracts import _histories
         if t.args[0].endswith("weaver.Weaver"):
             return _histories.gen_weaver(rnd)
+        if t.args[0].endswith("interval.IntervalArray"):
+            from traffic_weaver.interval import IntervalArray
+            n = rnd.randint(1, 5)
+            ia = IntervalArray(np.array([gen_real(rnd) for _ in range(rnd.randint(1, 14))]), n)
+            return ia
         raise NotImplementedError(f"no generic generator for {t}")
     if tag == "Kwargs":
         return {}
